@@ -229,6 +229,7 @@ def install(x, ctx=None):
     x.ext["math.isnan"] = ext_isnan
     x.ext["math.log2"] = ext_opaque_num("log2")      # only feeds the zero-padding width of the T word (tool_change)
     x.ext["math.ceil"] = ext_opaque_num("ceil")
+    x.ext["pow"] = ext_opaque_num("pow")
     if ctx is not None:
         ctx.trust("A-real: float arithmetic on finite values is exact real arithmetic (rounding, overflow not modelled)",
                   "A-types: @typechecked dropped; annotated parameter types are assumed (ill-typed calls raise TypeCheckError before the body)",
@@ -293,8 +294,8 @@ def mk_state(st, world, prefix="S", params_ref=None):
     fields = {}; wfs = []; reals = []
     bref, wf, r = mk_bounds(st, world, prefix + "B"); wfs.append(wf); reals += r
     fields["_user_bounds"] = bref
-    pt, wf = sym_point(prefix + "_axes"); wfs.append(wf); reals += [c.inner.val for c in pt.items()]
-    fields["_current_axes"] = pt
+    pt, wf = sym_point(prefix + "_axes", finite=True); wfs.append(wf); reals += [c.inner.val for c in pt.items()]
+    fields["_current_axes"] = pt      # wf_pos: tracked coordinates are finite (a position is committed only after it was formatted)
     if params_ref is None:
         params_ref, wf, r = mk_params(st, prefix + "P"); wfs.append(wf); reals += r
     fields["_current_params"] = params_ref
@@ -376,6 +377,7 @@ def mk_kwargs(st, keys=("X", "Y", "Z", "F", "S", "E", "K"), comment=True, prefix
     for k in keys:
         kk = k.lower() if (lower and k in AXES) else k
         o, wf = opt_num(f"{prefix}_{k}"); wfs.append(wf); reals.append(o.inner.val)
+        if k not in AXES: o = VOpt(F, o.inner)      # A-kwargs: non-axis keyword parameters are numbers (x=None is allowed, F=None is not)
         d.present[kk] = fresh(f"{prefix}_{k}_given", z3.BoolSort()); d.vals[kk] = o
     if comment:
         d.present["comment"] = fresh(f"{prefix}_comment_given", z3.BoolSort())
@@ -393,7 +395,7 @@ def mk_builder(st, world, transform="identity", hooks=0, cls="GCodeBuilder", pre
     fmt = st.alloc("DefaultFormatter", {})
     tf, treals = affine_fields(prefix + "T", identity=(transform == "identity")); reals += treals
     tr = st.alloc("CoordinateTransformer", tf)
-    axes, wf = sym_point(prefix + "_axes"); wfs.append(wf); reals += [c.inner.val for c in axes.items()]
+    axes, wf = sym_point(prefix + "_axes", finite=True); wfs.append(wf); reals += [c.inner.val for c in axes.items()]
     dm, wf = sym_enum("DistanceMode", world, prefix + "_dm"); wfs.append(wf)
     di, wf = sym_enum("Direction", world, prefix + "_dir"); wfs.append(wf)
     writers = st.alloc("list", {"$len": VNum(z3.IntVal(0), fresh(prefix + "_nwriters", z3.RealSort()), True)})
